@@ -722,10 +722,13 @@ func writeEvidence(def *propDef, tier string, seed int, agg *shardResult, exhaus
 	}
 	cov["samples"] = samples
 	cov["exhaustive"] = exhaustive
-	if def.Level == "model_checking" {
+	if def.Level == "model_checking" && pick(agg.counters, def.ID, "states") > 0 {
 		cov["states"] = pick(agg.counters, def.ID, "states")
 		cov["transitions"] = pick(agg.counters, def.ID, "transitions")
 		cov["traces_validated_against_impl"] = pick(agg.counters, def.ID, "traces")
+	}
+	if reducedBuild {
+		cov["reduced_build"] = "the layers that read the library's internal automaton / lexer API were left out: they do not compile against this tree"
 	}
 	other := map[string]int64{}
 	for k, v := range agg.counters {
